@@ -183,6 +183,9 @@ def gen_scenario(rng, sid, pf):
                 name = fresh_name()
                 if ninst == 1 and not t["proc"] and rng.random() < pf.p_empty_custom:
                     name = ""
+                if ninst == 2 and j == 1 and rng.random() < 0.3:
+                    # named and unnamed instances of one type side by side: the unnamed one sits under the type's own id
+                    name = ""
             c = {"type": ti, "name": name, "qual": rng.choice(QUALS) if t["qual"] else "",
                  "apsFail": False, "initFail": False, "runFail": False, "closeErr": False,
                  "ord": rng.choice([-3, 0, 1, 1, 2, 3, 5, 9, 17, 100, -(2 ** 63), 2 ** 63 - 1, -1, 2 ** 62]),
@@ -641,6 +644,9 @@ def gen_go(scn):
             binds.append("t.OrdM.BindOrd(&t.b)")
         if cls in ("P", "M"):        # M: the Priority() marker WITHOUT Order(): such a participant is not Ordered
             out.append("\twx.PrioM")
+        if not t["proc"] and (sid * 5 + ti * 3) % 9 < 2:
+            # an ordinary component that is also a (do-nothing) factory / definition-registry post-processor
+            out.append("\twx.%s" % ["FactoryAware", "RegistryAware"][(sid * 5 + ti * 3) % 9])
         for k, p in enumerate(t["fields"]):
             if not emb:
                 out.append("\tW%d %s `%s`" % (k, go_field_type(sid, p, scn["types"]), tag_of(p, name_key(sid, ti, k), (ti, k) in qapi)))
